@@ -1,7 +1,1310 @@
-//! C19 — not implemented yet (stub).
-use crate::engine::Args;
+//! C19 — UDP flows are sticky, isolated, bounded and torn down once (in-process tier on the pure
+//! `UdpManager` with a virtual clock; DESIGN §4 C19).
+//!
+//! A generated history of operations is applied to the public sans-io `UdpManager`; the output
+//! queue is drained after every call and compared with a reference model of the flow table that
+//! is written from the documentation of `protocol/udp/{mod,manager,flow,proxy_protocol}.rs`:
+//! flow key (per the affinity mode in force at admission) -> {client, backend chosen at the first
+//! resolution, captured knobs, idle deadline, counters, one-slot pre-resolution buffer}.
 
-pub fn run(_args: &Args) -> i32 {
-    println!("INCONCLUSIVE: C19 has no check yet");
-    2
+use std::{
+    collections::{BTreeMap, BTreeSet},
+    net::{IpAddr, Ipv4Addr, Ipv6Addr, SocketAddr},
+    time::{Duration, Instant},
+};
+
+use proptest::prelude::*;
+use serde::{Deserialize, Serialize};
+use sozu_lib::protocol::udp::{CloseReason, ClusterConfig, ConfigEvent, DropReason, FlowId, ManagerInput, MetricEvent, Output, UdpManager};
+
+use crate::engine::{self, Args, CaseReport, CheckResult, Evidence, Failure};
+
+// ---------------------------------------------------------------------------
+// case
+
+#[derive(Clone, Debug, Serialize, Deserialize, PartialEq)]
+pub struct Cfg {
+    /// 0 = no cluster routed (empty name), 1 = "dns", 2 = "syslog"
+    pub cluster: u8,
+    pub with_port: bool,
+    pub responses: u32,
+    pub requests: u32,
+    pub front_ms: u64,
+    pub back_ms: u64,
+    pub ppv2: bool,
+    pub every: bool,
+}
+
+impl Cfg {
+    fn name(&self) -> &'static str {
+        match self.cluster {
+            0 => "",
+            1 => "dns",
+            _ => "syslog",
+        }
+    }
+    fn to_sozu(&self) -> ClusterConfig {
+        ClusterConfig {
+            cluster: self.name().to_owned(),
+            affinity_with_port: self.with_port,
+            responses: self.responses,
+            requests: self.requests,
+            front_timeout: Duration::from_millis(self.front_ms),
+            back_timeout: Duration::from_millis(self.back_ms),
+            send_proxy_protocol: self.ppv2,
+            proxy_protocol_every_datagram: self.every,
+        }
+    }
+}
+
+/// which flow id an operation names; resolved against the model's state when the op runs
+#[derive(Clone, Debug, Serialize, Deserialize)]
+pub enum Target {
+    Awaiting(u32),
+    Established(u32),
+    Live(u32),
+    /// an id that was closed at some point (it may have been re-used since)
+    Closed(u32),
+    Raw(u8),
+}
+
+/// datagram length, relative to the receive limit in force
+#[derive(Clone, Debug, Serialize, Deserialize)]
+pub enum Len {
+    Empty,
+    Tiny(u8),
+    Small(u16),
+    UnderMax,
+    AtMax,
+    OverMax,
+}
+
+#[derive(Clone, Debug, Serialize, Deserialize)]
+pub enum When {
+    /// fire the reaper without moving the clock
+    Now,
+    /// move the clock exactly to `poll_timeout()` and fire
+    AtDeadline,
+    /// n ms (1..=99) before `poll_timeout()`: an early expiry, as sozu's 100 ms timer wheel
+    /// produces (it rounds a deadline to the nearest tick)
+    Before(u8),
+    /// `poll_timeout()` + n ms
+    After(u64),
+}
+
+#[derive(Clone, Debug, Serialize, Deserialize)]
+pub enum Cap {
+    Abs(u8),
+    /// live flow count minus n (n = 0: exactly the live count)
+    BelowLive(u8),
+}
+
+#[derive(Clone, Debug, Serialize, Deserialize)]
+pub enum Op {
+    /// a client datagram; `resolve` = the shell answers a resulting SelectBackend at once
+    /// (backend index, mixed address family) as the real shell does
+    Client { src: u8, len: Len, fill: u8, resolve: Option<(u8, bool)> },
+    Resolve { target: Target, backend: u8, mixed: bool },
+    Backend { target: Target, len: Len, fill: u8 },
+    Advance { ms: u64 },
+    Timeout { when: When },
+    SetCluster(Cfg),
+    FlipAffinity,
+    SetMaxFlows(Cap),
+    SetMaxRx(u32),
+    Drain,
+    Abort { target: Target, reason: u8 },
+    CloseAll,
+}
+
+#[derive(Clone, Debug, Serialize, Deserialize)]
+pub struct Case {
+    pub init: Cfg,
+    pub max_flows: u8,
+    pub max_rx: u32,
+    pub hash_seed: u64,
+    pub ops: Vec<Op>,
+}
+
+// ---------------------------------------------------------------------------
+// fixed pools
+
+const N_SRC: u8 = 8;
+
+/// Client sources: same IP / different port, same port / different IP, both families, a
+/// v4-mapped v6 address (a different IP from its v4 twin). No port 0: `FlowKey` normalises
+/// the port to 0 in IP-only mode, so a port-0 source aliases the two key spaces.
+fn source(i: u8) -> SocketAddr {
+    let v4 = |d: u8, p: u16| SocketAddr::new(IpAddr::V4(Ipv4Addr::new(10, 0, 0, d)), p);
+    let v6 = |d: u16, p: u16| SocketAddr::new(IpAddr::V6(Ipv6Addr::new(0x2001, 0xdb8, 0, 0, 0, 0, 0, d)), p);
+    match i % N_SRC {
+        0 => v4(1, 1000),
+        1 => v4(1, 1001),
+        2 => v4(1, 65535),
+        3 => v4(2, 1000),
+        4 => v4(3, 1),
+        5 => v6(1, 1000),
+        6 => v6(1, 1001),
+        _ => SocketAddr::new(IpAddr::V6(Ipv4Addr::new(10, 0, 0, 1).to_ipv6_mapped()), 1000),
+    }
+}
+
+/// Four backends per family: two share an IP, two share a port.
+fn backend(client_v6: bool, idx: u8, mixed: bool) -> (String, SocketAddr) {
+    let idx = idx % 4;
+    let v6 = client_v6 ^ mixed;
+    let port = 5300 + u16::from(idx % 2);
+    let host = 1 + idx / 2;
+    let ip = if v6 { IpAddr::V6(Ipv6Addr::new(0, 0, 0, 0, 0, 0, 0, u16::from(host))) } else { IpAddr::V4(Ipv4Addr::new(127, 0, 0, host)) };
+    (format!("b{idx}{}", if v6 { "v6" } else { "" }), SocketAddr::new(ip, port))
+}
+
+fn resolve_len(len: &Len, max_rx: usize) -> usize {
+    match len {
+        Len::Empty => 0,
+        Len::Tiny(n) => 1 + usize::from(*n % 4),
+        Len::Small(n) => 1 + usize::from(*n % 300),
+        Len::UnderMax => max_rx.saturating_sub(1),
+        Len::AtMax => max_rx,
+        Len::OverMax => max_rx.saturating_add(1),
+    }
+}
+
+/// payload tagged with (who, op index): byte 0 = tag, bytes 1..3 = op index (LE), then a ramp
+fn mk_payload(tag: u8, op: usize, len: usize, fill: u8) -> Vec<u8> {
+    (0..len)
+        .map(|i| match i {
+            0 => tag,
+            1 => (op & 0xff) as u8,
+            2 => ((op >> 8) & 0xff) as u8,
+            _ => fill.wrapping_add(i as u8),
+        })
+        .collect()
+}
+
+type Key = (IpAddr, u16);
+
+/// the affinity key: source IP, plus the source port in 4-tuple mode
+fn mkkey(src: SocketAddr, with_port: bool) -> Key {
+    (src.ip(), if with_port { src.port() } else { 0 })
+}
+
+// ---------------------------------------------------------------------------
+// strategy
+
+fn timeout_ms() -> impl Strategy<Value = u64> {
+    prop_oneof![
+        1 => Just(0u64),
+        1 => Just(1u64),
+        2 => Just(50u64),
+        5 => Just(500u64),
+        8 => Just(5_000u64),
+        5 => Just(30_000u64),
+        1 => Just(u64::from(u32::MAX) * 1000),
+    ]
+}
+
+fn cfg(empty_weight: u32) -> impl Strategy<Value = Cfg> {
+    (
+        prop_oneof![empty_weight => Just(0u8), 12 => 1u8..=2],
+        any::<bool>(),
+        prop_oneof![5 => Just(0u32), 3 => 1u32..=3],
+        prop_oneof![5 => Just(0u32), 3 => 1u32..=4],
+        timeout_ms(),
+        timeout_ms(),
+        prop::bool::weighted(0.45),
+        any::<bool>(),
+    )
+        .prop_map(|(cluster, with_port, responses, requests, front_ms, back_ms, ppv2, every)| Cfg {
+            cluster,
+            with_port,
+            responses,
+            requests,
+            front_ms,
+            back_ms,
+            ppv2,
+            every,
+        })
+}
+
+fn len() -> impl Strategy<Value = Len> {
+    prop_oneof![
+        1 => Just(Len::Empty),
+        6 => any::<u8>().prop_map(Len::Tiny),
+        10 => any::<u16>().prop_map(Len::Small),
+        1 => Just(Len::UnderMax),
+        2 => Just(Len::AtMax),
+        1 => Just(Len::OverMax),
+    ]
+}
+
+fn target(aw: u32, es: u32, live: u32, closed: u32, raw: u32) -> impl Strategy<Value = Target> {
+    prop_oneof![
+        aw => any::<u32>().prop_map(Target::Awaiting),
+        es => any::<u32>().prop_map(Target::Established),
+        live => any::<u32>().prop_map(Target::Live),
+        closed => any::<u32>().prop_map(Target::Closed),
+        raw => (0u8..12).prop_map(Target::Raw),
+    ]
+}
+
+fn max_rx() -> impl Strategy<Value = u32> {
+    prop_oneof![
+        1 => Just(1u32),
+        1 => Just(3u32),
+        1 => Just(28u32),
+        2 => Just(64u32),
+        16 => Just(1500u32),
+        1 => Just(65_535u32),
+    ]
+}
+
+fn op() -> impl Strategy<Value = Op> {
+    let advance = prop_oneof![
+        4 => 0u64..60,
+        3 => 400u64..600,
+        2 => 4_000u64..6_000,
+        1 => 29_000u64..31_000,
+        1 => Just(100_000_000u64),
+    ];
+    let when = prop_oneof![
+        2 => Just(When::Now),
+        4 => Just(When::AtDeadline),
+        2 => prop_oneof![2 => Just(1u8), 2 => Just(49u8), 1 => 1u8..=99].prop_map(When::Before),
+        2 => (0u64..600).prop_map(When::After),
+    ];
+    let cap = prop_oneof![3 => (0u8..=8).prop_map(Cap::Abs), 2 => (0u8..=2).prop_map(Cap::BelowLive)];
+    prop_oneof![
+        40 => (prop_oneof![5 => 0u8..3, 3 => 0u8..N_SRC], len(), any::<u8>(), prop::option::weighted(0.6, (0u8..4, prop::bool::weighted(0.08))))
+            .prop_map(|(src, len, fill, resolve)| Op::Client { src, len, fill, resolve }),
+        12 => (target(6, 2, 1, 2, 1), 0u8..4, prop::bool::weighted(0.08)).prop_map(|(target, backend, mixed)| Op::Resolve { target, backend, mixed }),
+        14 => (target(1, 7, 1, 2, 1), len(), any::<u8>()).prop_map(|(target, len, fill)| Op::Backend { target, len, fill }),
+        8 => advance.prop_map(|ms| Op::Advance { ms }),
+        6 => when.prop_map(|when| Op::Timeout { when }),
+        4 => cfg(1).prop_map(Op::SetCluster),
+        4 => Just(Op::FlipAffinity),
+        6 => cap.prop_map(Op::SetMaxFlows),
+        2 => max_rx().prop_map(Op::SetMaxRx),
+        1 => Just(Op::Drain),
+        3 => (target(1, 1, 5, 2, 1), 0u8..5).prop_map(|(target, reason)| Op::Abort { target, reason }),
+        2 => Just(Op::CloseAll),
+    ]
+}
+
+pub fn strategy() -> impl Strategy<Value = Case> {
+    // one vec strategy (not a union of ranges) so that a failing history shrinks down to one op
+    let ops = prop::collection::vec(op(), 1..=60);
+    (cfg(0), prop_oneof![1 => Just(0u8), 2 => Just(1u8), 12 => 2u8..=6], max_rx(), any::<u64>(), ops).prop_map(|(init, max_flows, max_rx, hash_seed, ops)| Case {
+        init,
+        max_flows,
+        max_rx,
+        hash_seed,
+        ops,
+    })
+}
+
+// ---------------------------------------------------------------------------
+// own PROXY-v2 parser (the oracle does not call sozu's header builder)
+
+const PP2_SIG: [u8; 12] = [0x0D, 0x0A, 0x0D, 0x0A, 0x00, 0x0D, 0x0A, 0x51, 0x55, 0x49, 0x54, 0x0A];
+
+struct Pp2 {
+    /// (source, destination) — None for AF_UNSPEC
+    addrs: Option<(SocketAddr, SocketAddr)>,
+    header_len: usize,
+}
+
+fn parse_pp2(buf: &[u8]) -> Result<Option<Pp2>, String> {
+    if buf.len() < 12 || buf[..12] != PP2_SIG {
+        return Ok(None);
+    }
+    if buf.len() < 16 {
+        return Err(format!("PROXY v2 signature but only {} bytes", buf.len()));
+    }
+    if buf[12] != 0x21 {
+        return Err(format!("version/command byte {:#04x}, expected 0x21 (v2, PROXY)", buf[12]));
+    }
+    let alen = usize::from(u16::from_be_bytes([buf[14], buf[15]]));
+    if buf.len() < 16 + alen {
+        return Err(format!("address block length {alen} exceeds the datagram"));
+    }
+    let a = &buf[16..16 + alen];
+    let port = |o: usize| u16::from_be_bytes([a[o], a[o + 1]]);
+    let addrs = match buf[13] {
+        0x12 => {
+            if alen != 12 {
+                return Err(format!("AF_INET/DGRAM with address length {alen}, expected 12"));
+            }
+            let s = Ipv4Addr::new(a[0], a[1], a[2], a[3]);
+            let d = Ipv4Addr::new(a[4], a[5], a[6], a[7]);
+            Some((SocketAddr::new(s.into(), port(8)), SocketAddr::new(d.into(), port(10))))
+        }
+        0x22 => {
+            if alen != 36 {
+                return Err(format!("AF_INET6/DGRAM with address length {alen}, expected 36"));
+            }
+            let mut s = [0u8; 16];
+            let mut d = [0u8; 16];
+            s.copy_from_slice(&a[0..16]);
+            d.copy_from_slice(&a[16..32]);
+            Some((SocketAddr::new(Ipv6Addr::from(s).into(), port(32)), SocketAddr::new(Ipv6Addr::from(d).into(), port(34))))
+        }
+        0x00 => {
+            if alen != 0 {
+                return Err(format!("AF_UNSPEC with address length {alen}, expected 0"));
+            }
+            None
+        }
+        other => return Err(format!("family/transport byte {other:#04x} is not a DGRAM encoding")),
+    };
+    Ok(Some(Pp2 { addrs, header_len: 16 + alen }))
+}
+
+// ---------------------------------------------------------------------------
+// reference model
+
+#[derive(Clone, Debug)]
+struct MFlow {
+    client: SocketAddr,
+    key: Key,
+    /// knobs captured at admission
+    cfg: Cfg,
+    backend: Option<SocketAddr>,
+    /// absolute idle deadline, ms after the epoch of the run
+    deadline: u64,
+    /// earliest deadline this flow ever had (coverage only)
+    first_deadline: u64,
+    req: u32,
+    resp: u32,
+    pp_first_pending: bool,
+    /// the single pre-resolution slot
+    pending: Option<Vec<u8>>,
+    /// op index of the last client datagram forwarded on this flow (tag ledger)
+    last_fwd_op: Option<usize>,
+    /// event counter value when the flow last saw a client datagram (non-triviality)
+    last_dgram_epoch: u64,
+}
+
+impl MFlow {
+    /// does this upstream datagram carry the PROXY v2 prefix?
+    fn take_pp(&mut self) -> bool {
+        if !self.cfg.ppv2 {
+            return false;
+        }
+        if self.cfg.every {
+            return true;
+        }
+        std::mem::replace(&mut self.pp_first_pending, false)
+    }
+}
+
+/// expected semantic output (metrics, timer requests and closes are checked apart)
+#[derive(Debug)]
+enum Exp {
+    Select { cluster: &'static str },
+    Open { flow: FlowId, backend: SocketAddr },
+    ToBackend { flow: FlowId, dst: SocketAddr, body: Vec<u8>, prefix: Option<(SocketAddr, SocketAddr)> },
+    ToClient { flow: FlowId, dst: SocketAddr, payload: Vec<u8> },
+    /// admissible reasons
+    Drop(Vec<DropReason>),
+}
+
+impl Exp {
+    fn kind(&self) -> &'static str {
+        match self {
+            Exp::Select { .. } => "SelectBackend",
+            Exp::Open { .. } => "OpenUpstream",
+            Exp::ToBackend { .. } => "SendToBackend",
+            Exp::ToClient { .. } => "SendToClient",
+            Exp::Drop(_) => "Drop",
+        }
+    }
+}
+
+fn out_kind(o: &Output) -> &'static str {
+    match o {
+        Output::SelectBackend { .. } => "SelectBackend",
+        Output::OpenUpstream { .. } => "OpenUpstream",
+        Output::SendToBackend(_) => "SendToBackend",
+        Output::SendToClient(_) => "SendToClient",
+        Output::ArmTimer(_) => "ArmTimer",
+        Output::Metric(_) => "Metric",
+        Output::CloseFlow(_) => "CloseFlow",
+        Output::Drop(_) => "Drop",
+    }
+}
+
+#[derive(PartialEq, Clone, Copy)]
+enum Shed {
+    No,
+    Must,
+    May,
+}
+
+/// an operation with every choice made concrete
+enum ROp {
+    Client { src: SocketAddr, payload: Vec<u8> },
+    Resolve { flow: FlowId, name: String, addr: SocketAddr },
+    Backend { flow: FlowId, payload: Vec<u8> },
+    Timeout,
+    SetCluster(Cfg),
+    SetMaxFlows(usize),
+    SetMaxRx(usize),
+    Drain,
+    Abort { flow: FlowId, reason: CloseReason },
+    CloseAll,
+}
+
+impl ROp {
+    fn kind(&self) -> &'static str {
+        match self {
+            ROp::Client { .. } => "client-datagram",
+            ROp::Resolve { .. } => "backend-resolved",
+            ROp::Backend { .. } => "backend-datagram",
+            ROp::Timeout => "handle-timeout",
+            ROp::SetCluster(_) => "set-cluster",
+            ROp::SetMaxFlows(_) => "set-max-flows",
+            ROp::SetMaxRx(_) => "set-max-rx",
+            ROp::Drain => "drain",
+            ROp::Abort { .. } => "abort-flow",
+            ROp::CloseAll => "close-all",
+        }
+    }
+}
+
+struct Run {
+    mgr: UdpManager,
+    base: Instant,
+    now: u64,
+    // --- model
+    cfg: Cfg,
+    max_flows: usize,
+    cap_high_water: usize,
+    max_rx: usize,
+    draining: bool,
+    flows: BTreeMap<FlowId, MFlow>,
+    table: BTreeMap<Key, FlowId>,
+    closed_ids: BTreeSet<FlowId>,
+    created: u64,
+    evicted: u64,
+    /// the one-shot timer the shell would hold: the last `ArmTimer`, consumed when it fires
+    shell_timer: Option<Instant>,
+    /// How early the shell's timer may fire. None: a `handle_timeout` before the armed deadline
+    /// is a spurious call that leaves the shell's timer pending. Some(w): the timer is a wheel
+    /// that fires up to w ms early, and firing consumes it.
+    wheel_window_ms: Option<u64>,
+    /// affinity hash handed out per (mode, key)
+    hashes: BTreeMap<(bool, Key), u64>,
+    /// every client datagram offered, by op index: (source index, bytes)
+    sent: BTreeMap<usize, (u8, Vec<u8>)>,
+    /// counts cap / affinity / cluster / clock events
+    epoch: u64,
+    // --- measurement
+    classes: BTreeSet<&'static str>,
+    max_alive: usize,
+    event_between: bool,
+    steps: u64,
+}
+
+fn fail<T>(sig: impl Into<String>, msg: String) -> Result<T, Failure> {
+    Err(Failure::new(sig, msg))
+}
+
+impl Run {
+    fn new(case: &Case, wheel_window_ms: Option<u64>) -> Run {
+        let max_flows = usize::from(case.max_flows);
+        Run {
+            mgr: UdpManager::new(case.init.to_sozu(), max_flows, case.max_rx as usize, case.hash_seed),
+            // the epoch of the virtual clock; only offsets from it are ever used
+            base: Instant::now(),
+            now: 0,
+            cfg: case.init.clone(),
+            max_flows,
+            cap_high_water: max_flows,
+            max_rx: case.max_rx as usize,
+            draining: false,
+            flows: BTreeMap::new(),
+            table: BTreeMap::new(),
+            closed_ids: BTreeSet::new(),
+            created: 0,
+            evicted: 0,
+            shell_timer: None,
+            wheel_window_ms,
+            hashes: BTreeMap::new(),
+            sent: BTreeMap::new(),
+            epoch: 0,
+            classes: BTreeSet::new(),
+            max_alive: 0,
+            event_between: false,
+            steps: 0,
+        }
+    }
+
+    fn at(&self, ms: u64) -> Instant {
+        self.base + Duration::from_millis(ms)
+    }
+
+    fn min_deadline(&self) -> Option<u64> {
+        self.flows.values().map(|f| f.deadline).min()
+    }
+
+    fn pick(&self, t: &Target) -> FlowId {
+        let choose = |ids: Vec<FlowId>, x: u32| -> Option<FlowId> { if ids.is_empty() { None } else { Some(ids[engine::pick_idx(x, ids.len())]) } };
+        let fallback = |x: u32| engine::pick_idx(x, 12);
+        match t {
+            Target::Awaiting(x) => choose(self.flows.iter().filter(|(_, f)| f.backend.is_none()).map(|(i, _)| *i).collect(), *x)
+                .or_else(|| choose(self.flows.keys().copied().collect(), *x))
+                .unwrap_or_else(|| fallback(*x)),
+            Target::Established(x) => choose(self.flows.iter().filter(|(_, f)| f.backend.is_some()).map(|(i, _)| *i).collect(), *x)
+                .or_else(|| choose(self.flows.keys().copied().collect(), *x))
+                .unwrap_or_else(|| fallback(*x)),
+            Target::Live(x) => choose(self.flows.keys().copied().collect(), *x).unwrap_or_else(|| fallback(*x)),
+            Target::Closed(x) => choose(self.closed_ids.iter().copied().collect(), *x).unwrap_or_else(|| fallback(*x)),
+            Target::Raw(n) => usize::from(*n),
+        }
+    }
+
+    fn drain(&mut self) -> Vec<Output> {
+        let mut v = vec![];
+        while let Some(o) = self.mgr.poll_output() {
+            v.push(o);
+        }
+        v
+    }
+
+    /// remove a flow from the model (the expected effect of one teardown)
+    fn close(&mut self, id: FlowId) {
+        if let Some(f) = self.flows.remove(&id) {
+            if self.table.get(&f.key) == Some(&id) {
+                self.table.remove(&f.key);
+            }
+            self.closed_ids.insert(id);
+        }
+    }
+
+    // ---- one generated operation
+
+    fn step(&mut self, i: usize, op: &Op) -> Result<(), Failure> {
+        match op {
+            Op::Client { src, len, fill, resolve } => {
+                let src_idx = *src % N_SRC;
+                let addr = source(src_idx);
+                let payload = mk_payload(0xC0 | src_idx, i, resolve_len(len, self.max_rx), *fill);
+                self.sent.insert(i, (src_idx, payload.clone()));
+                let admitted = self.exec(i, ROp::Client { src: addr, payload })?;
+                if let (Some(flow), Some((b, mixed))) = (admitted, resolve) {
+                    let (name, baddr) = backend(addr.is_ipv6(), *b, *mixed);
+                    self.classes.insert("resolve:prompt");
+                    self.exec(i, ROp::Resolve { flow, name, addr: baddr })?;
+                }
+            }
+            Op::Resolve { target, backend: b, mixed } => {
+                let flow = self.pick(target);
+                let v6 = self.flows.get(&flow).map(|f| f.client.is_ipv6()).unwrap_or(false);
+                let (name, addr) = backend(v6, *b, *mixed);
+                self.exec(i, ROp::Resolve { flow, name, addr })?;
+            }
+            Op::Backend { target, len, fill } => {
+                let flow = self.pick(target);
+                let payload = mk_payload(0xB0, i, resolve_len(len, self.max_rx), *fill);
+                self.exec(i, ROp::Backend { flow, payload })?;
+            }
+            Op::Advance { ms } => {
+                self.now += ms;
+                if *ms > 0 {
+                    self.epoch += 1;
+                }
+            }
+            Op::Timeout { when } => {
+                let d = self.min_deadline();
+                let t = match (when, d) {
+                    (When::Now, _) | (_, None) => self.now,
+                    (When::AtDeadline, Some(d)) => d,
+                    (When::Before(n), Some(d)) => d.saturating_sub(u64::from((*n).clamp(1, 99))),
+                    (When::After(n), Some(d)) => d.saturating_add(*n),
+                };
+                // the clock never runs backwards
+                if t > self.now {
+                    self.now = t;
+                    self.epoch += 1;
+                }
+                if d == Some(self.now) {
+                    self.classes.insert("timeout:exactly-at-deadline");
+                }
+                self.exec(i, ROp::Timeout)?;
+            }
+            Op::SetCluster(c) => {
+                self.exec(i, ROp::SetCluster(c.clone()))?;
+            }
+            Op::FlipAffinity => {
+                let mut c = self.cfg.clone();
+                c.with_port = !c.with_port;
+                self.exec(i, ROp::SetCluster(c))?;
+            }
+            Op::SetMaxFlows(cap) => {
+                let n = match cap {
+                    Cap::Abs(n) => usize::from(*n),
+                    Cap::BelowLive(k) => self.flows.len().saturating_sub(usize::from(*k)),
+                };
+                self.exec(i, ROp::SetMaxFlows(n))?;
+            }
+            Op::SetMaxRx(n) => {
+                self.exec(i, ROp::SetMaxRx(*n as usize))?;
+            }
+            Op::Drain => {
+                self.exec(i, ROp::Drain)?;
+            }
+            Op::Abort { target, reason } => {
+                let flow = self.pick(target);
+                let reason = match reason % 5 {
+                    0 => CloseReason::Aborted,
+                    1 => CloseReason::Idle,
+                    2 => CloseReason::Drain,
+                    3 => CloseReason::ResponsesReached,
+                    _ => CloseReason::RequestsReached,
+                };
+                self.exec(i, ROp::Abort { flow, reason })?;
+            }
+            Op::CloseAll => {
+                self.exec(i, ROp::CloseAll)?;
+            }
+        }
+        Ok(())
+    }
+
+    /// Apply one concrete operation to the manager, drain its outputs, advance the model and
+    /// compare. Returns the id of a flow admitted by this operation.
+    fn exec(&mut self, i: usize, rop: ROp) -> Result<Option<FlowId>, Failure> {
+        self.steps += 1;
+        let kind = rop.kind();
+        let now = self.now;
+        let now_i = self.at(now);
+        let live_before: BTreeSet<FlowId> = self.flows.keys().copied().collect();
+
+        // ---- the code under test
+        match &rop {
+            ROp::Client { src, payload, .. } => self.mgr.handle_input(ManagerInput::ClientDatagram { src: *src, payload }, now_i),
+            ROp::Resolve { flow, name, addr } => self.mgr.handle_input(ManagerInput::BackendResolved { flow: *flow, backend: name.clone(), addr: *addr }, now_i),
+            ROp::Backend { flow, payload } => self.mgr.handle_input(ManagerInput::BackendDatagram { flow: *flow, payload }, now_i),
+            ROp::Timeout => {
+                // The shell calls handle_timeout when its one-shot timer fires, which consumes
+                // that timer: when it is due, or (wheel) up to one tick before it is due.
+                let window = Duration::from_millis(self.wheel_window_ms.unwrap_or(0));
+                if let Some(t) = self.shell_timer {
+                    if now_i >= t {
+                        self.shell_timer = None;
+                    } else if now_i + window > t {
+                        self.shell_timer = None;
+                        if !self.flows.is_empty() {
+                            self.classes.insert("timeout:early-expiry-with-live-flows");
+                        }
+                    }
+                }
+                self.mgr.handle_timeout(now_i)
+            }
+            ROp::SetCluster(c) => self.mgr.handle_input(ManagerInput::Config(ConfigEvent::SetCluster(c.to_sozu())), now_i),
+            ROp::SetMaxFlows(n) => self.mgr.handle_input(ManagerInput::Config(ConfigEvent::SetMaxFlows(*n)), now_i),
+            ROp::SetMaxRx(n) => self.mgr.handle_input(ManagerInput::Config(ConfigEvent::SetMaxRxDatagramSize(*n)), now_i),
+            ROp::Drain => self.mgr.handle_input(ManagerInput::Config(ConfigEvent::Drain), now_i),
+            ROp::Abort { flow, reason } => self.mgr.abort_flow(*flow, now_i, *reason),
+            ROp::CloseAll => self.mgr.close_all(now_i),
+        }
+        let outs = self.drain();
+
+        // ---- split the output stream
+        let mut sem: Vec<&Output> = vec![];
+        let mut act_closes: Vec<FlowId> = vec![];
+        let mut metrics: Vec<MetricEvent> = vec![];
+        let mut last_arm: Option<Instant> = None;
+        for o in &outs {
+            match o {
+                Output::Metric(m) => metrics.push(*m),
+                Output::ArmTimer(t) => last_arm = Some(*t),
+                Output::CloseFlow(id) => act_closes.push(*id),
+                other => {
+                    if !act_closes.is_empty() {
+                        return fail(
+                            "C19/output-after-close",
+                            format!("op {i} ({kind}): {} emitted after CloseFlow({:?}) in the same drain", out_kind(other), act_closes),
+                        );
+                    }
+                    sem.push(other);
+                }
+            }
+        }
+
+        // ---- the reference model
+        let mut exp: Vec<Exp> = vec![];
+        let mut closes: Vec<FlowId> = vec![];
+        let mut shed = Shed::No;
+        let mut admit: Option<MFlow> = None;
+        match &rop {
+            ROp::Client { src, payload } => {
+                let mut reasons = vec![];
+                if payload.len() > self.max_rx {
+                    reasons.push(DropReason::Truncated);
+                    self.classes.insert("client:oversize-dropped");
+                }
+                if self.cfg.cluster == 0 {
+                    reasons.push(DropReason::NoBackend);
+                }
+                if payload.is_empty() {
+                    reasons.push(DropReason::Invalid);
+                }
+                let key = mkkey(*src, self.cfg.with_port);
+                let existing = self.table.get(&key).copied();
+                // Admissible set: a listener whose routing was removed may refuse the datagram
+                // (documented on remove_udp_front: "new datagrams now have no backend") or keep
+                // serving an already admitted flow with its captured config.
+                let unrouted_existing = reasons == [DropReason::NoBackend] && existing.is_some();
+                let actually_dropped = matches!(sem.first(), Some(Output::Drop(_)));
+                if !reasons.is_empty() && !(unrouted_existing && !actually_dropped) {
+                    if unrouted_existing {
+                        self.classes.insert("client:existing-flow-refused-after-unroute");
+                    }
+                    exp.push(Exp::Drop(reasons));
+                } else if let Some(id) = existing {
+                    let at_cap = self.flows.len() >= self.max_flows;
+                    let epoch = self.epoch;
+                    let draining = self.draining;
+                    let f = self.flows.get_mut(&id).expect("model table points at a live flow");
+                    if epoch > f.last_dgram_epoch {
+                        self.event_between = true;
+                    }
+                    f.last_dgram_epoch = epoch;
+                    if f.client != *src {
+                        self.classes.insert("client:ip-only-flow-shared-by-other-port");
+                    }
+                    let mut labels: Vec<&'static str> = vec![];
+                    match f.backend {
+                        None => {
+                            // newest wins, one slot; only the idle deadline is refreshed
+                            f.pending = Some(payload.clone());
+                            f.deadline = now.saturating_add(f.cfg.front_ms);
+                            labels.push("client:buffered-datagram-overwritten");
+                        }
+                        Some(b) => {
+                            f.req = f.req.saturating_add(1);
+                            f.deadline = now.saturating_add(f.cfg.front_ms);
+                            let prefix = f.take_pp().then_some((f.client, b));
+                            exp.push(Exp::ToBackend { flow: id, dst: b, body: payload.clone(), prefix });
+                            labels.push("client:forwarded-on-established-flow");
+                            if at_cap {
+                                labels.push("cap:existing-flow-served-at-cap");
+                            }
+                            if draining {
+                                labels.push("drain:existing-flow-served");
+                            }
+                            if f.cfg.requests != 0 && f.req >= f.cfg.requests {
+                                closes.push(id);
+                                labels.push("close:requests-reached");
+                            }
+                        }
+                    }
+                    self.classes.extend(labels);
+                } else if self.draining {
+                    exp.push(Exp::Drop(vec![DropReason::Shed]));
+                    shed = Shed::May;
+                    self.classes.insert("shed:draining");
+                } else if self.flows.len() >= self.max_flows {
+                    exp.push(Exp::Drop(vec![DropReason::Shed]));
+                    shed = Shed::Must;
+                    self.classes.insert("shed:at-cap");
+                } else {
+                    exp.push(Exp::Select { cluster: self.cfg.name() });
+                    let deadline = now.saturating_add(self.cfg.front_ms);
+                    admit = Some(MFlow {
+                        client: *src,
+                        key,
+                        cfg: self.cfg.clone(),
+                        backend: None,
+                        deadline,
+                        first_deadline: deadline,
+                        req: 0,
+                        resp: 0,
+                        pp_first_pending: self.cfg.ppv2,
+                        pending: Some(payload.clone()),
+                        last_fwd_op: None,
+                        last_dgram_epoch: self.epoch,
+                    });
+                }
+            }
+            ROp::Resolve { flow, addr, .. } => match self.flows.get_mut(flow) {
+                None => {
+                    exp.push(Exp::Drop(vec![DropReason::UnknownFlow]));
+                    self.classes.insert(if self.closed_ids.contains(flow) { "resolve:for-reaped-flow" } else { "resolve:unknown-id" });
+                }
+                Some(f) if f.backend.is_some() => {
+                    // duplicate / late resolution: ignored, the first backend stays
+                    self.classes.insert(if f.backend == Some(*addr) { "resolve:duplicate-same-backend" } else { "resolve:duplicate-other-backend" });
+                }
+                Some(f) => {
+                    f.backend = Some(*addr);
+                    exp.push(Exp::Open { flow: *flow, backend: *addr });
+                    if self.closed_ids.contains(flow) {
+                        self.classes.insert("resolve:on-reused-id");
+                    }
+                    if f.client.is_ipv4() != addr.is_ipv4() {
+                        self.classes.insert("resolve:mixed-family");
+                    }
+                    if let Some(p) = f.pending.take() {
+                        f.req = f.req.saturating_add(1);
+                        f.deadline = now.saturating_add(f.cfg.front_ms);
+                        let prefix = f.take_pp().then_some((f.client, *addr));
+                        exp.push(Exp::ToBackend { flow: *flow, dst: *addr, body: p, prefix });
+                        if f.cfg.requests != 0 && f.req >= f.cfg.requests {
+                            closes.push(*flow);
+                            self.classes.insert("close:requests-reached");
+                        }
+                    }
+                }
+            },
+            ROp::Backend { flow, payload } => {
+                let mut reasons = vec![];
+                if payload.len() > self.max_rx {
+                    reasons.push(DropReason::Truncated);
+                }
+                match self.flows.get(flow) {
+                    None => {
+                        reasons.push(DropReason::UnknownFlow);
+                        self.classes.insert(if self.closed_ids.contains(flow) { "backend-dgram:stale-flow" } else { "backend-dgram:unknown-id" });
+                    }
+                    Some(f) if f.backend.is_none() => {
+                        reasons.push(DropReason::UnknownFlow);
+                        self.classes.insert("backend-dgram:awaiting-flow");
+                    }
+                    Some(_) => {}
+                }
+                if !reasons.is_empty() {
+                    exp.push(Exp::Drop(reasons));
+                } else {
+                    let f = self.flows.get_mut(flow).expect("checked above");
+                    f.resp = f.resp.saturating_add(1);
+                    f.deadline = now.saturating_add(f.cfg.back_ms);
+                    exp.push(Exp::ToClient { flow: *flow, dst: f.client, payload: payload.clone() });
+                    self.classes.insert("reply:returned-to-client");
+                    if f.cfg.responses != 0 && f.resp >= f.cfg.responses {
+                        closes.push(*flow);
+                        self.classes.insert("close:responses-reached");
+                    }
+                }
+            }
+            ROp::Timeout => {
+                for (id, f) in &self.flows {
+                    if f.deadline <= now {
+                        closes.push(*id);
+                    } else if f.first_deadline <= now {
+                        self.classes.insert("timeout:refreshed-flow-survives-stale-expiry");
+                    }
+                }
+                if !closes.is_empty() {
+                    self.classes.insert("close:idle");
+                    if closes.len() < self.flows.len() {
+                        self.classes.insert("close:idle-some-flows-survive");
+                    }
+                } else if !self.flows.is_empty() {
+                    self.classes.insert("timeout:nothing-due");
+                }
+            }
+            ROp::SetCluster(c) => {
+                if c.with_port != self.cfg.with_port && !self.flows.is_empty() {
+                    self.classes.insert("reconfig:affinity-flip-with-live-flows");
+                }
+                if *c != self.cfg && !self.flows.is_empty() {
+                    self.classes.insert("reconfig:cluster-with-live-flows");
+                }
+                self.cfg = c.clone();
+                self.epoch += 1;
+            }
+            ROp::SetMaxFlows(n) => {
+                if *n < self.flows.len() {
+                    self.classes.insert("cap:set-below-live-count");
+                }
+                self.max_flows = *n;
+                self.cap_high_water = self.cap_high_water.max(*n);
+                self.epoch += 1;
+            }
+            ROp::SetMaxRx(n) => self.max_rx = *n,
+            ROp::Drain => {
+                if !self.flows.is_empty() {
+                    self.classes.insert("drain:with-live-flows");
+                }
+                self.draining = true;
+                self.epoch += 1;
+            }
+            ROp::Abort { flow, .. } => {
+                if self.flows.contains_key(flow) {
+                    closes.push(*flow);
+                    self.classes.insert("close:abort");
+                } else {
+                    self.classes.insert("abort:dead-or-unknown-id");
+                }
+            }
+            ROp::CloseAll => {
+                closes.extend(self.flows.keys().copied());
+                if closes.len() >= 2 {
+                    self.classes.insert("close:mass-teardown-2plus");
+                }
+            }
+        }
+        // ---- compare the semantic outputs, in order
+        let mut admitted: Option<(FlowId, u64)> = None;
+        for n in 0..sem.len().max(exp.len()) {
+            let (Some(e), Some(a)) = (exp.get(n), sem.get(n)) else {
+                let ek = exp.get(n).map(|e| e.kind()).unwrap_or("nothing");
+                let ak = sem.get(n).map(|a| out_kind(a)).unwrap_or("nothing");
+                return fail(
+                    format!("C19/unexpected-output:{kind}:{ek}-vs-{ak}"),
+                    format!("op {i} ({kind}): output #{n}: the model expects {ek}, the manager emitted {ak}; expected {exp:?}; emitted {}", engine::truncate(&format!("{sem:?}"), 600)),
+                );
+            };
+            match (e, a) {
+                (Exp::Select { cluster }, Output::SelectBackend { flow, cluster: c, key }) => {
+                    if c != cluster {
+                        return fail("C19/select-wrong-cluster", format!("op {i}: SelectBackend names cluster {c:?}, the cluster in force is {cluster:?}"));
+                    }
+                    if self.flows.contains_key(flow) {
+                        return fail("C19/admitted-id-already-live", format!("op {i}: a new flow was given id {flow}, which belongs to a live flow"));
+                    }
+                    admitted = Some((*flow, *key));
+                }
+                (Exp::Open { flow, backend }, Output::OpenUpstream { flow: f, backend: b }) => {
+                    if f != flow || b != backend {
+                        return fail("C19/open-upstream-mismatch", format!("op {i}: OpenUpstream{{flow {f}, {b}}}, expected flow {flow} to {backend}"));
+                    }
+                }
+                (Exp::ToBackend { flow, dst, body, prefix }, Output::SendToBackend(t)) => {
+                    if t.dst != *dst {
+                        return fail(
+                            "C19/backend-not-sticky",
+                            format!("op {i} ({kind}): datagram of flow {flow} sent to {}, the flow's backend (first resolution) is {dst}", t.dst),
+                        );
+                    }
+                    let rest: &[u8] = match prefix {
+                        None => &t.payload,
+                        Some((client, be)) => match parse_pp2(&t.payload) {
+                            Err(why) => return fail("C19/ppv2-malformed", format!("op {i}: flow {flow}: {why}")),
+                            Ok(None) => return fail("C19/ppv2-missing", format!("op {i}: flow {flow}: PROXY v2 prefix expected (client {client}, backend {be}), datagram starts {:02x?}", &t.payload[..t.payload.len().min(16)])),
+                            Ok(Some(pp)) => {
+                                let want = if client.is_ipv4() == be.is_ipv4() { Some((*client, *be)) } else { None };
+                                if pp.addrs != want {
+                                    return fail("C19/ppv2-wrong-addresses", format!("op {i}: flow {flow}: PROXY v2 carries {:?}, expected {want:?}", pp.addrs));
+                                }
+                                self.classes.insert(match (want, client.is_ipv6()) {
+                                    (None, _) => "ppv2:validated-unspec-mixed-family",
+                                    (Some(_), true) => "ppv2:validated-v6",
+                                    (Some(_), false) => "ppv2:validated-v4",
+                                });
+                                &t.payload[pp.header_len..]
+                            }
+                        },
+                    };
+                    if rest != &body[..] {
+                        if prefix.is_none() && parse_pp2(&t.payload).ok().flatten().is_some() {
+                            return fail("C19/ppv2-unexpected", format!("op {i}: flow {flow}: PROXY v2 prefix on a datagram that must not carry one"));
+                        }
+                        let earlier = self.sent.iter().any(|(j, (_, p))| *j != i && !p.is_empty() && &p[..] == rest);
+                        return fail(
+                            if earlier { "C19/forwarded-other-datagram" } else { "C19/forwarded-payload-altered" },
+                            format!("op {i} ({kind}): flow {flow}: forwarded {} bytes {:02x?}.., expected {} bytes {:02x?}..", rest.len(), &rest[..rest.len().min(8)], body.len(), &body[..body.len().min(8)]),
+                        );
+                    }
+                    // tag ledger, independent of the model's buffer logic: the forwarded datagram
+                    // is one the client offered, belongs to this flow's key, and is newer than
+                    // everything already forwarded on the flow (at most once, in order)
+                    if rest.len() >= 3 && rest[0] & 0xF8 == 0xC0 {
+                        let j = usize::from(rest[1]) | usize::from(rest[2]) << 8;
+                        let src_idx = rest[0] & 0x07;
+                        let f = self.flows.get_mut(flow).expect("expected forwards belong to model flows");
+                        match self.sent.get(&j) {
+                            Some((s, p)) if *s == src_idx && &p[..] == rest => {}
+                            _ => return fail("C19/forwarded-datagram-never-offered", format!("op {i}: flow {flow}: forwarded datagram tagged (src {src_idx}, op {j}) was not offered by that client")),
+                        }
+                        if mkkey(source(src_idx), f.cfg.with_port) != f.key {
+                            return fail("C19/flow-isolation", format!("op {i}: flow {flow} (key {:?}) forwarded a datagram of source {}", f.key, source(src_idx)));
+                        }
+                        if f.last_fwd_op.map(|l| j <= l).unwrap_or(false) {
+                            return fail("C19/forward-duplicated-or-reordered", format!("op {i}: flow {flow} forwarded the datagram of op {j} after that of op {:?}", f.last_fwd_op));
+                        }
+                        f.last_fwd_op = Some(j);
+                    }
+                }
+                (Exp::ToClient { flow, dst, payload }, Output::SendToClient(t)) => {
+                    if t.dst != *dst {
+                        return fail("C19/reply-to-wrong-client", format!("op {i}: reply on flow {flow} returned to {}, the flow's client is {dst}", t.dst));
+                    }
+                    if t.payload != *payload {
+                        return fail("C19/reply-bytes-altered", format!("op {i}: reply on flow {flow}: {} bytes returned, {} bytes received from the backend", t.payload.len(), payload.len()));
+                    }
+                }
+                (Exp::Drop(admissible), Output::Drop(r)) => {
+                    if !admissible.contains(r) {
+                        return fail(format!("C19/drop-reason:{kind}:{r:?}"), format!("op {i} ({kind}): dropped as {r:?}, admissible reasons {admissible:?}"));
+                    }
+                }
+                (e, a) => {
+                    return fail(
+                        format!("C19/unexpected-output:{kind}:{}-vs-{}", e.kind(), out_kind(a)),
+                        format!("op {i} ({kind}): output #{n}: the model expects {e:?}, the manager emitted {}", engine::truncate(&format!("{a:?}"), 300)),
+                    );
+                }
+            }
+        }
+
+        // ---- teardown: exactly the expected flows, each exactly once
+        let mut seen = BTreeSet::new();
+        for id in &act_closes {
+            if !seen.insert(*id) {
+                return fail("C19/flow-closed-twice", format!("op {i} ({kind}): CloseFlow({id}) emitted twice"));
+            }
+            if !live_before.contains(id) {
+                return fail("C19/close-of-dead-flow", format!("op {i} ({kind}): CloseFlow({id}) for an id that is not a live flow (live: {live_before:?})"));
+            }
+            if !closes.contains(id) {
+                return fail(format!("C19/live-flow-closed:{kind}"), format!("op {i} ({kind}): flow {id} was torn down although nothing ends it (expected closes {closes:?})"));
+            }
+        }
+        for id in &closes {
+            if !seen.contains(id) {
+                return fail(format!("C19/flow-not-torn-down:{kind}"), format!("op {i} ({kind}): flow {id} must be torn down (expected closes {closes:?}, emitted {act_closes:?})"));
+            }
+        }
+
+        // ---- metrics mirror the semantic outputs
+        let n_created = metrics.iter().filter(|m| matches!(m, MetricEvent::FlowCreated)).count();
+        let n_evicted = metrics.iter().filter(|m| matches!(m, MetricEvent::FlowEvicted)).count();
+        let n_shed = metrics.iter().filter(|m| matches!(m, MetricEvent::FlowShed)).count();
+        if n_created != usize::from(admitted.is_some()) {
+            return fail("C19/metric-flow-created", format!("op {i} ({kind}): {n_created} FlowCreated for {} admission(s)", usize::from(admitted.is_some())));
+        }
+        if n_evicted != closes.len() {
+            return fail("C19/metric-flow-evicted", format!("op {i} ({kind}): {n_evicted} FlowEvicted for {} teardown(s)", closes.len()));
+        }
+        let shed_ok = match shed {
+            Shed::No => n_shed == 0,
+            Shed::Must => n_shed == 1,
+            Shed::May => n_shed <= 1,
+        };
+        if !shed_ok {
+            return fail("C19/metric-flow-shed", format!("op {i} ({kind}): {n_shed} FlowShed metric(s)"));
+        }
+        let m_in: Vec<usize> = metrics.iter().filter_map(|m| if let MetricEvent::DatagramIn(n) = m { Some(*n) } else { None }).collect();
+        let e_in: Vec<usize> = exp.iter().filter_map(|e| if let Exp::ToBackend { body, .. } = e { Some(body.len()) } else { None }).collect();
+        let m_out: Vec<usize> = metrics.iter().filter_map(|m| if let MetricEvent::DatagramOut(n) = m { Some(*n) } else { None }).collect();
+        let e_out: Vec<usize> = exp.iter().filter_map(|e| if let Exp::ToClient { payload, .. } = e { Some(payload.len()) } else { None }).collect();
+        let m_drop: Vec<DropReason> = metrics.iter().filter_map(|m| if let MetricEvent::DatagramDropped(r) = m { Some(*r) } else { None }).collect();
+        let a_drop: Vec<DropReason> = sem.iter().filter_map(|o| if let Output::Drop(r) = o { Some(*r) } else { None }).collect();
+        if m_in != e_in || m_out != e_out || m_drop != a_drop {
+            return fail(
+                "C19/metric-datagram-accounting",
+                format!("op {i} ({kind}): DatagramIn {m_in:?} vs forwarded payload sizes {e_in:?}; DatagramOut {m_out:?} vs returned {e_out:?}; DatagramDropped {m_drop:?} vs Drop {a_drop:?}"),
+            );
+        }
+
+        // ---- admission bookkeeping
+        let mut new_id = None;
+        if let (Some((id, hash)), Some(f)) = (admitted, admit) {
+            // admitted under the cap in force, and never while draining
+            if self.draining || self.flows.len() >= self.max_flows {
+                return fail("C19/admitted-over-cap", format!("op {i}: flow {id} admitted with {} live flows, cap {}, draining {}", self.flows.len(), self.max_flows, self.draining));
+            }
+            // stable affinity: one affinity key, one hash, whatever was reconfigured in between
+            let hk = (f.cfg.with_port, f.key);
+            if let Some(prev) = self.hashes.get(&hk) {
+                self.classes.insert("affinity:hash-of-readmitted-key-compared");
+                if *prev != hash {
+                    return fail("C19/affinity-hash-unstable", format!("op {i}: affinity key {hk:?} hashed to {prev:#x} earlier and {hash:#x} now"));
+                }
+            }
+            self.hashes.insert(hk, hash);
+            if self.closed_ids.contains(&id) {
+                self.classes.insert("admit:flow-id-reused");
+            }
+            if self.flows.values().any(|o| o.client == f.client) {
+                self.classes.insert("admit:second-flow-for-same-client-after-affinity-flip");
+            }
+            self.table.insert(f.key, id);
+            self.flows.insert(id, f);
+            new_id = Some(id);
+        }
+        for id in &closes {
+            self.close(*id);
+        }
+        self.created += n_created as u64;
+        self.evicted += n_evicted as u64;
+
+        self.post(i, kind, last_arm, matches!(rop, ROp::Timeout))?;
+        Ok(new_id)
+    }
+
+    /// state checks after every drained operation
+    fn post(&mut self, i: usize, kind: &str, last_arm: Option<Instant>, was_timeout: bool) -> Result<(), Failure> {
+        let count = self.mgr.flow_count();
+        if count != self.flows.len() {
+            return fail("C19/flow-count", format!("after op {i} ({kind}): flow_count() = {count}, the model has {} live flows", self.flows.len()));
+        }
+        if count > self.cap_high_water {
+            return fail("C19/flow-count-over-cap", format!("after op {i} ({kind}): {count} live flows, the largest cap ever in force is {}", self.cap_high_water));
+        }
+        if self.created - self.evicted != count as u64 {
+            return fail("C19/gauge-balance", format!("after op {i} ({kind}): FlowCreated {} - FlowEvicted {} != flow_count {count}", self.created, self.evicted));
+        }
+        if self.mgr.poll_output().is_some() {
+            return fail("C19/output-queue-not-drained", format!("after op {i} ({kind}): poll_output() yields again after returning None"));
+        }
+        if self.mgr.max_flows() != self.max_flows || self.mgr.is_draining() != self.draining || self.mgr.affinity_with_port() != self.cfg.with_port {
+            return fail("C19/config-not-applied", format!("after op {i} ({kind}): max_flows {} / draining {} / affinity_with_port {}", self.mgr.max_flows(), self.mgr.is_draining(), self.mgr.affinity_with_port()));
+        }
+        // introspection agrees with the model for every live flow; dead ids resolve to nothing
+        for (id, f) in &self.flows {
+            let Some(s) = self.mgr.flow(*id) else {
+                return fail("C19/flow-missing", format!("after op {i} ({kind}): flow({id}) is None for a live flow"));
+            };
+            if s.client != f.client || s.backend_addr != f.backend {
+                return fail("C19/flow-state:endpoints", format!("after op {i} ({kind}): flow {id} has client {} backend {:?}, expected {} {:?}", s.client, s.backend_addr, f.client, f.backend));
+            }
+            if s.idle_deadline != self.at(f.deadline) {
+                return fail(
+                    "C19/flow-state:idle-deadline",
+                    format!("after op {i} ({kind}): flow {id} idle deadline is t+{:?}, expected t+{}ms", s.idle_deadline.saturating_duration_since(self.base), f.deadline),
+                );
+            }
+            if s.requests_seen != f.req || s.responses_seen != f.resp {
+                return fail("C19/flow-state:counters", format!("after op {i} ({kind}): flow {id} requests/responses {}/{}, expected {}/{}", s.requests_seen, s.responses_seen, f.req, f.resp));
+            }
+        }
+        for id in &self.closed_ids {
+            if !self.flows.contains_key(id) && self.mgr.flow(*id).is_some() {
+                return fail("C19/closed-flow-still-present", format!("after op {i} ({kind}): flow({id}) is still Some after its CloseFlow"));
+            }
+        }
+        // timer: poll_timeout is the earliest live deadline, None without flows; and the shell —
+        // which only learns deadlines through ArmTimer — holds exactly that deadline
+        if let Some(t) = last_arm {
+            self.shell_timer = Some(t);
+        }
+        let want = self.min_deadline().map(|d| self.at(d));
+        let got = self.mgr.poll_timeout();
+        if got != want {
+            return fail(
+                if got.is_some() != want.is_some() { "C19/poll-timeout-liveness" } else { "C19/poll-timeout-deadline" },
+                format!("after op {i} ({kind}): poll_timeout() = {:?} after epoch, expected {:?}", got.map(|t| t.saturating_duration_since(self.base)), self.min_deadline()),
+            );
+        }
+        if let Some(w) = want {
+            if self.shell_timer.is_none() && was_timeout {
+                return fail(
+                    "C19/idle-timer-not-rearmed-after-early-expiry",
+                    format!(
+                        "after op {i} ({kind}): the shell's one-shot timer fired at t+{}ms, before the earliest idle deadline t+{}ms; handle_timeout reaped nothing and emitted no ArmTimer (poll_timeout() unchanged), so the shell holds no timer any more and {} live flow(s) are never reaped while the listener stays quiet",
+                        self.now,
+                        self.min_deadline().unwrap_or(0),
+                        self.flows.len()
+                    ),
+                );
+            }
+            if self.shell_timer != Some(w) {
+                return fail(
+                    "C19/timer-not-armed-at-earliest-deadline",
+                    format!("after op {i} ({kind}): earliest idle deadline is t+{:?}ms but the last ArmTimer the shell holds is {:?}", self.min_deadline(), self.shell_timer.map(|t| t.saturating_duration_since(self.base))),
+                );
+            }
+            if was_timeout && w <= self.at(self.now) {
+                return fail("C19/timeout-no-strict-advance", format!("after op {i}: poll_timeout() <= now after handle_timeout"));
+            }
+        }
+        self.max_alive = self.max_alive.max(self.flows.len());
+        Ok(())
+    }
+
+    fn finish(mut self, n_ops: usize) -> CheckResult {
+        // epilogue: everything still alive goes away exactly once, nothing leaks
+        let live_at_end = self.flows.len();
+        self.now += 100_000_000;
+        self.exec(n_ops, ROp::Timeout)?;
+        self.exec(n_ops + 1, ROp::CloseAll)?;
+        if self.mgr.flow_count() != 0 || self.mgr.poll_timeout().is_some() || self.created != self.evicted {
+            return fail(
+                "C19/leak-after-close-all",
+                format!("after the final close_all: flow_count {}, poll_timeout {:?}, created {} evicted {}", self.mgr.flow_count(), self.mgr.poll_timeout(), self.created, self.evicted),
+            );
+        }
+        let mut rep = CaseReport::default();
+        rep.nontrivial = self.max_alive >= 2 && self.event_between;
+        rep.inner_evaluations = self.steps;
+        rep.class_if(self.max_alive >= 2, "two-plus-flows-alive");
+        rep.class_if(self.max_alive >= 4, "four-plus-flows-alive");
+        rep.class_if(self.event_between, "event-between-datagrams-of-one-flow");
+        rep.class_if(live_at_end > 0, "flows-alive-at-end");
+        rep.class_if(self.created == 0, "no-flow-ever-admitted");
+        for c in &self.classes {
+            rep.class(*c);
+        }
+        rep.class_if(self.classes.iter().any(|c| c.starts_with("ppv2:validated")), "ppv2:validated");
+        Ok(rep)
+    }
+}
+
+pub fn check(case: &Case) -> CheckResult {
+    check_with(case, None)
+}
+
+/// The same oracle with the shell's timer modelled as sozu's timer wheel (lib/src/timer.rs,
+/// 100 ms ticks, deadline rounded to the nearest tick): it may fire up to one tick early.
+pub fn check_wheel(case: &Case) -> CheckResult {
+    check_with(case, Some(100))
+}
+
+fn check_with(case: &Case, wheel_window_ms: Option<u64>) -> CheckResult {
+    let mut run = Run::new(case, wheel_window_ms);
+    run.post(0, "construction", None, false)?;
+    for (i, op) in case.ops.iter().enumerate() {
+        run.step(i, op)?;
+    }
+    run.finish(case.ops.len())
+}
+
+pub fn run(args: &Args) -> i32 {
+    let mut ev = Evidence::new(args, "exploration");
+    ev.rule(
+        "manager",
+        "history of 1..=60 operations on the public sans-io UdpManager with a virtual clock (ms offsets from one epoch): client datagrams from 8 sources (same IP/other port, same port/other IP, v4, v6, v4-mapped; payload tagged with source and op index; lengths empty / tiny / small / max-1 / max / max+1 relative to the receive limit in force), optionally resolved at once like the real shell; BackendResolved and backend datagrams for awaiting / established / closed-and-maybe-reused / arbitrary ids with 4 backends per family (rarely of the other family); clock advances; handle_timeout now / exactly at / 1 ms before / after poll_timeout; SetCluster (all knobs, timeouts 0..u32::MAX s, empty cluster), affinity flip, SetMaxFlows absolute or at/below the live count, SetMaxRxDatagramSize, Drain, abort_flow, close_all; epilogue: huge clock jump + handle_timeout + close_all. Outputs drained after every call and compared with a reference model written from the module documentation: exact sequence of SelectBackend/OpenUpstream/SendToBackend/SendToClient/Drop (drop reason from an admissible set; a datagram for an existing flow on an un-routed listener may be refused or served), exact set of CloseFlow per call (each once, only live ids, after all other outputs), PROXY-v2 prefix parsed by the harness' own parser (first-only / every datagram, flow client and backend addresses, UNSPEC for mixed family), tag ledger (forwarded datagram was offered by a source of the flow's key, strictly newer than the last forwarded one), admission only under the cap in force and not draining, flow_count == model <= largest cap ever, FlowCreated-FlowEvicted == flow_count, per-datagram metrics, flow() endpoints/deadline/counters, poll_timeout == earliest live deadline (None iff no flow), last ArmTimer seen by the shell == that deadline, strict advance after handle_timeout, stable affinity hash per key. sozu's own check_invariants is private but runs inside every mutating call in this profile (a violation is a panic@ failure). Non-trivial: >= 2 flows alive at once and a cap/cluster/affinity/drain/clock event between two client datagrams of one flow; distinct by case hash.",
+    );
+    ev.assume("sub 'manager': a handle_timeout before the armed deadline is a spurious call that leaves the shell's one-shot timer pending (the timer wheel's early firing is the subject of sub 'early-expiry')");
+    ev.assume("the shell tier (lib/src/udp.rs: sockets, shadow key table, write queues) is not driven here; SendToBackend carries no flow id, it is attributed to the flow the operation addresses");
+    ev.assume("client sources never use port 0 (FlowKey normalises the port to 0 in IP-only mode, so such a source aliases both key spaces)");
+    ev.assume("in IP-only affinity the PROXY-v2 source and the reply destination are the flow's first client address (documented on UdpFlow::client), also for datagrams of the same IP sent from another port");
+    for (class, frac) in [
+        ("two-plus-flows-alive", 0.4),
+        ("event-between-datagrams-of-one-flow", 0.3),
+        ("client:forwarded-on-established-flow", 0.35),
+        ("reply:returned-to-client", 0.3),
+        ("shed:at-cap", 0.08),
+        ("cap:existing-flow-served-at-cap", 0.05),
+        ("cap:set-below-live-count", 0.04),
+        ("reconfig:affinity-flip-with-live-flows", 0.08),
+        ("close:idle", 0.15),
+        ("close:requests-reached", 0.05),
+        ("close:responses-reached", 0.05),
+        ("close:abort", 0.03),
+        ("close:mass-teardown-2plus", 0.02),
+        ("client:buffered-datagram-overwritten", 0.05),
+        ("resolve:duplicate-other-backend", 0.03),
+        ("resolve:for-reaped-flow", 0.02),
+        ("admit:flow-id-reused", 0.1),
+        ("ppv2:validated", 0.15),
+        ("shed:draining", 0.01),
+    ] {
+        ev.floor("manager", class, frac);
+    }
+    let cases = args.cases(200_000, 3_000_000);
+    engine::run_pbt(&mut ev, args, "manager", cases, strategy, check);
+
+    ev.rule(
+        "early-expiry",
+        "same generator and oracle as 'manager', but the shell's timer is modelled as what lib/src/udp.rs really uses: a one-shot entry of the 100 ms timer wheel (lib/src/timer.rs rounds a deadline to the NEAREST tick, so it fires up to ~50 ms - opportunistically up to one tick - before the requested instant). A handle_timeout less than 100 ms before the armed deadline therefore is a timer firing and consumes the shell's timer; afterwards, while flows are alive, the shell must again hold a timer at the earliest deadline (udp.rs timeout(): 'the manager emits a fresh ArmTimer via poll_output if a flow is still scheduled'). Non-trivial as in 'manager'.",
+    );
+    let cases = args.cases(50_000, 500_000);
+    engine::run_pbt(&mut ev, args, "early-expiry", cases, strategy, check_wheel);
+    ev.finish()
 }
